@@ -2,7 +2,7 @@
 import importlib
 
 PROPS = {
-    "C16": [("u_pkgallow", "quick")],
+    "C16": [("u_pkgallow", "quick"), ("u_orphan", "quick")],
     "C10": [("u_intlit", "quick"), ("u_dcefx", "quick")],
     "C07": [("u_munify", "quick")],
     "C15": [("u_art", "quick"), ("u_link", "quick")],
